@@ -97,7 +97,7 @@ func suiteBlockProof(c *Ctx) {
 		v := uint64(r.Intn(3))
 		// the genuine ingredients
 		typ, pinst, ph, hash := protocol.LEAN_HELIX_COMMIT, inst, h, blockHash(blk)
-		mutation := r.Intn(17)
+		mutation := r.Intn(18)
 		switch mutation {
 		case 1:
 			typ = []protocol.MessageType{protocol.LEAN_HELIX_PREPARE, protocol.LEAN_HELIX_PREPREPARE, 0, 7}[r.Intn(4)]
@@ -155,6 +155,9 @@ func suiteBlockProof(c *Ctx) {
 			if mutation == 8 && i == len(signers)-1 { // one bad signature
 				sig = append([]byte{}, sig...)
 				sig[0] ^= 1
+			}
+			if mutation == 17 && i < len(signers)-1 { // every signature but the last is forged (ids of genuine members, garbage signatures)
+				sig = append([]byte("forged-"), byte(i))
 			}
 			if mutation == 9 && i == 0 { // signature over another ref (e.g. a PREPARE of the same block)
 				other := &protocol.BlockRefBuilder{MessageType: protocol.LEAN_HELIX_PREPARE, InstanceId: primitives.InstanceId(pinst), BlockHeight: primitives.BlockHeight(ph), View: primitives.View(v), BlockHash: hash}
